@@ -184,7 +184,17 @@ class VecEval:
                     base[k] = x
             elif isinstance(i, int):
                 base[i] = v
-            elif isinstance(i, slice) and i.step in (None, 1):
+            elif isinstance(i, tuple) and len(i) == 1 and isinstance(i[0], list) and all(isinstance(x, int) and not isinstance(x, bool) for x in i[0]):
+                vals = v if isinstance(v, list) else [v] * len(i[0])
+                for k, x in zip(i[0], vals):
+                    base[k] = x
+            elif isinstance(i, list) and not (len(i) == len(base) and all(isinstance(x, bool) for x in i)) and all(isinstance(x, int) and not isinstance(x, bool) for x in i):
+                vals = v if isinstance(v, list) else [v] * len(i)
+                if len(vals) != len(i):
+                    raise Unsupported('fancy store shape')
+                for k, x in zip(i, vals):
+                    base[k] = x
+            elif isinstance(i, slice):
                 pos = list(range(*i.indices(len(base))))
                 vals = list(v) if isinstance(v, (list, tuple)) else [v] * len(pos)
                 if len(vals) != len(pos):
@@ -348,6 +358,8 @@ class VecEval:
                     else:
                         raise Unsupported('2-d column index')
                     return col if isinstance(r_, slice) else col[0]
+                if isinstance(i, tuple) and len(i) == 1 and isinstance(i[0], list) and isinstance(base, list):
+                    i = i[0]          # result of np.nonzero used as an index
                 if isinstance(i, list) and isinstance(base, list):
                     if i and all(isinstance(x, bool) for x in i):
                         return [b for b, m in zip(base, i) if m]
